@@ -8,6 +8,7 @@ import (
 	"strings"
 	"sync"
 	"testing"
+	"time"
 
 	"github.com/mfcochauxlaberge/jsonapi"
 	"pgregory.net/rapid"
@@ -300,10 +301,37 @@ func c12Schema(t *rapid.T) *gen.SchemaSpec {
 	// "Every schema": one in three is large (a lookup structure may only be
 	// built beyond some size).
 	if rapid.IntRange(0, 2).Draw(t, "large") == 0 {
-		o.MinTypes, o.MaxTypes, o.MaxAttrs = 8, 14, 2
+		o.MinTypes, o.MaxTypes, o.MaxAttrs = 8, 22, 2
 	}
 
-	return gen.CoherentSchema(t, o)
+	ss := gen.CoherentSchema(t, o)
+
+	// "Every schema": some have relationships that point nowhere (Check then
+	// has something to report). They are added to the schema only - the
+	// generators of URLs, payloads and resources do not use them.
+	c12Dangling = c12Dangling[:0]
+
+	for i := range ss.Types {
+		if !ss.Types[i].Struct && rapid.IntRange(0, 2).Draw(t, "dangling") == 0 {
+			c12Dangling = append(c12Dangling, ss.Types[i].Name)
+		}
+	}
+
+	c12AddDangling(ss.Schema)
+
+	return ss
+}
+
+// c12Dangling lists the soft types of the current case that get a dangling
+// relationship; c12AddDangling adds them to a schema built from the same specs.
+var c12Dangling []string
+
+func c12AddDangling(schema *jsonapi.Schema) {
+	for _, name := range c12Dangling {
+		if err := schema.AddRel(name, jsonapi.Rel{FromType: name, FromName: "zz-dangling", ToType: "zz-ghost", ToOne: true}); err != nil {
+			panic("c12AddDangling: " + err.Error())
+		}
+	}
 }
 
 // TestC12Sequential: every operation, alone, leaves the schema's exported
@@ -409,6 +437,7 @@ func TestC12Concurrent(t *testing.T) {
 		// sequential reference run uses a twin schema built from the same
 		// description.
 		twin := gen.BuildSchema(append([]gen.TypeSpec{}, ss.Types...))
+		c12AddDangling(twin.Schema)
 
 		// Concurrent run.
 		got := make([][]string, g)
@@ -446,7 +475,22 @@ func TestC12Concurrent(t *testing.T) {
 		}
 
 		close(start)
-		wg.Wait()
+
+		// The listed operations only read: they cannot wait for each other.
+		// Each list takes milliseconds; if the goroutines are not all done
+		// after a minute they block each other.
+		done := make(chan struct{})
+
+		go func() {
+			wg.Wait()
+			close(done)
+		}()
+
+		select {
+		case <-done:
+		case <-time.After(60 * time.Second):
+			t.Fatalf("C12 violated: %d goroutines running read-only operations against one schema did not all return within 60 s (their lists take milliseconds): the operations block each other\ncase: %s", g, desc.String())
+		}
 
 		// Sequential reference run.
 		want := make([][]string, g)
@@ -521,6 +565,17 @@ func TestC12Regress(t *testing.T) {
 			}()
 		}
 
-		wg.Wait()
+		done := make(chan struct{})
+
+		go func() {
+			wg.Wait()
+			close(done)
+		}()
+
+		select {
+		case <-done:
+		case <-time.After(60 * time.Second):
+			t.Fatalf("C12 violated: 8 goroutines calling Rels, Check, HasType, GetType and New on one schema did not return within 60 s: the queries block each other")
+		}
 	})
 }
